@@ -22,6 +22,7 @@ CLAIMS = {
  "C13": ("other", "Sufficient condition decided by symbolic execution (not by enumerating schedules): on every path of Validate (and ApplyDefaults, except for the caller's instance) no store targets memory that existed before the call (Resolved, Schema tree, side tables, package-level variables) unless through a sync.Map; calls that write only call-local memory cannot race. Violations are confirmed natively by deep before/after comparison or under the race detector.", "§6 C13"),
  "C14": ("model_checking", "(a) the no-write premise of C13 extended to the instance; (b) Validate explored under every map iteration order (up to 4 keys per range) and with a symbolic hash seed/function: every path agrees with the order-independent reference verdict, hence the verdict is a function of schema and instance; native scaffold observations for Resolve purity and repeated Marshal.", "§6 C14"),
  "C18": ("model_checking", "Non-interference by havoc: in every Schema node all documented non-asserting fields and Extra are unconstrained symbolic values while Validate runs on a symbolic instance; the reference semantics ignores them, so any influence is a satisfiable verdict query. The unknown-keyword / letter-case clause lives inside encoding/json and is covered only by a native enumeration of case variants (scaffold).", "§6 C18"),
+ "C17": ("model_checking", "Kernels executed from the real SSA with symbolic byte strings: K1 escape/unescape/parse agree with RFC 6901 for all keys and pointers within the length bounds; K2 dereferenceJSONPointer on a maximal schema (first segment every field name, second segment symbolic) returns exactly the subschema RFC 6901 designates, else an error; K3 percent-encoded pointers to every location of a maximal document resolve end to end and validate against the designated subschema for every instance.", "§6 C17"),
 }
 
 ALL = [f"C{i:02d}" for i in range(1, 21)]
